@@ -257,3 +257,10 @@ pub fn single_edits(s: &str) -> Vec<String> {
     }
     out
 }
+
+/// Arbitrary signature-like strings over the descriptor delimiters and multi-byte characters.
+pub fn arbitrary_sig(rng: &mut Rng) -> String {
+    const A: &[&str] = &["(", ")", "L", ";", "[", "I", "V", "J", "/", "é", "日", "a", "Z", ":", ".", " ", "\u{1F600}", "La/b;", "[[", "Lé;", ")V", "(L"];
+    let n = rng.below(10);
+    (0..n).map(|_| *rng.pick(A)).collect()
+}
